@@ -52,11 +52,25 @@ func loadFindings() []finding {
 	return ff.Findings
 }
 
+// selfPath: the race variant sits next to the running binary.
 func selfPath(race bool) string {
-	if race {
-		return filepath.Join(VerifDir, "harness", "bin", "icecheck-race")
+	dir := filepath.Join(VerifDir, "harness", "bin")
+	if exe, err := os.Executable(); err == nil {
+		dir = filepath.Dir(exe)
 	}
-	return filepath.Join(VerifDir, "harness", "bin", "icecheck")
+	if race {
+		return filepath.Join(dir, "icecheck-race")
+	}
+	return filepath.Join(dir, "icecheck")
+}
+
+// EvidenceDir is /verif/evidence unless VERIF_EVIDENCE_DIR redirects it (used
+// only when the checks are pointed at a scratch copy of the repository).
+func EvidenceDir() string {
+	if d := os.Getenv("VERIF_EVIDENCE_DIR"); d != "" {
+		return d
+	}
+	return filepath.Join(VerifDir, "evidence")
 }
 
 func watchdog(tier string) time.Duration {
@@ -179,9 +193,9 @@ func ParentMain(p *Property, tier string, seed int64, onlyPhase string) int {
 		"violations":  len(fresh),
 	}
 	if onlyPhase == "" {
-		os.MkdirAll(filepath.Join(VerifDir, "evidence"), 0o755)
+		os.MkdirAll(EvidenceDir(), 0o755)
 		b, _ := json.MarshalIndent(ev, "", " ")
-		if err := os.WriteFile(filepath.Join(VerifDir, "evidence", p.ID+".json"), b, 0o644); err != nil {
+		if err := os.WriteFile(filepath.Join(EvidenceDir(), p.ID+".json"), b, 0o644); err != nil {
 			fmt.Fprintln(os.Stderr, "cannot write evidence:", err)
 			return 2
 		}
@@ -197,7 +211,7 @@ func ParentMain(p *Property, tier string, seed int64, onlyPhase string) int {
 	}
 
 	if len(fresh) > 0 {
-		os.MkdirAll(filepath.Join(VerifDir, "evidence", "replay"), 0o755)
+		os.MkdirAll(filepath.Join(EvidenceDir(), "replay"), 0o755)
 		seen := map[string]int{}
 		printed := 0
 		sort.SliceStable(fresh, func(a, b int) bool { return fresh[a].Idx < fresh[b].Idx })
@@ -207,7 +221,7 @@ func ParentMain(p *Property, tier string, seed int64, onlyPhase string) int {
 				continue
 			}
 			printed++
-			path := filepath.Join(VerifDir, "evidence", "replay", fmt.Sprintf("%s-%d-%s-%d.json", p.ID, seed, v.Phase, v.Idx))
+			path := filepath.Join(EvidenceDir(), "replay", fmt.Sprintf("%s-%d-%s-%d.json", p.ID, seed, v.Phase, v.Idx))
 			b, _ := json.MarshalIndent(v, "", " ")
 			os.WriteFile(path, b, 0o644)
 			fmt.Printf("  what: [%s] %s\n", v.Sig, firstLine(v.Msg))
